@@ -73,6 +73,13 @@ func genC11(r *simrt.Rand, tier string) (Cfg, *Program) {
 		pf.AdFaults = true
 		pf.Strategy = []int{0, 1, 2}
 	}
+	if r.Chance(12) {
+		// somebody waits for the worker to finish (and takes its lock to look) while others
+		// submit: an accepted job must not be left in the backend because its wake-up arrived
+		// at that moment
+		pf.Waiters, pf.WaitOps = [2]int{1, 2}, [2]int{1, 4}
+		pf.Wait = []wop{{opWUFw, 1}}
+	}
 	c, p := generate(r, pf)
 	if len(c.Queues) > 1 {
 		for i := range c.Queues {
